@@ -444,10 +444,242 @@ def _cond_holds(c, md):
     return True
 
 
+def rule_G(ctx):
+    """C05.G Track.resample (linear; temporal and spatial) interpreted on irregular tracks against the piecewise-linear interpolant:
+    requests as a number, a list of instants and a reference track; steps that do and do not divide the duration / length; instants
+    before, on and after the ends; tracks with repeated positions and varying heights"""
+    import datetime
+    import math
+    from .. import absint, orders, npstub
+    TRACKQ = 'tracklib.core.track.Track'
+    fr = ctx.prog.func(TRACKQ + '.resample')
+    fn = absint.funcs(ctx, 'tracklib.core.track', dict(npstub.stubs()))
+
+    def _exit(*a):
+        raise orders.Raised('SystemExit', 'exit()')
+    fn['exit'] = _exit
+    T = absint.classref(ctx, TRACKQ, fn)
+    OT = absint.classref(ctx, 'tracklib.core.obs_time.ObsTime', fn)
+    mi = ctx.prog.module('tracklib.algo.interpolation')
+    consts = {}
+    for k in ('MODE_SPATIAL', 'MODE_TEMPORAL', 'ALGO_LINEAR'):
+        v = mi.consts.get(k)
+        if not isinstance(v, ast.Constant):
+            raise anchor_error('constant %s not found' % k, 'tracklib.algo.interpolation')
+        consts[k] = v.value
+
+    class P(orders.PyStub):
+        isa = ('ENUCoords',)
+
+        def __init__(self, x, y, z=0.0):
+            self.c = (float(x), float(y), float(z))
+
+        def getX(self):
+            return self.c[0]
+
+        def getY(self):
+            return self.c[1]
+
+        def getZ(self):
+            return self.c[2]
+
+        def copy(self):
+            return P(*self.c)
+
+        def distance2DTo(self, o):
+            return math.hypot(self.c[0] - o.c[0], self.c[1] - o.c[1])
+
+        def distanceTo(self, o):
+            return math.sqrt(sum((a_ - b_) ** 2 for a_, b_ in zip(self.c, o.c)))
+
+    P.__name__ = P.__qualname__ = 'ENUCoords'
+
+    class O(orders.PyStub):
+        isa = ('Obs',)
+
+        def __init__(self, position, timestamp=None):
+            self.position = position
+            self.timestamp = timestamp
+            self.features = []
+
+        def copy(self):
+            o = O(self.position.copy(), absint.deep_copy(self.timestamp))
+            o.features = list(self.features)
+            return o
+
+        def distanceTo(self, o):
+            return self.position.distanceTo(o.position)
+
+        def distance2DTo(self, o):
+            return self.position.distance2DTo(o.position)
+    fn['Obs'] = O
+    fn['ENUCoords'] = P
+    fn['__globals__'].update({'Obs': O, 'ENUCoords': P})
+    EPOCH0 = (datetime.datetime(2021, 6, 10, 8, 0, 0) - datetime.datetime(1970, 1, 1)).total_seconds()
+
+    def stamp(sec):
+        d = datetime.datetime(1970, 1, 1) + datetime.timedelta(seconds=EPOCH0 + sec)
+        return OT(d.year, d.month, d.day, d.hour, d.minute, d.second, int(round(d.microsecond / 1000.0)))
+
+    def secs(ts):
+        f = ts.fields
+        d = datetime.datetime(int(f['year']), int(f['month']), int(f['day']), int(f['hour']), int(f['min']), int(f['sec']))
+        return (d - datetime.datetime(1970, 1, 1)).total_seconds() + f['ms'] / 1000.0 - EPOCH0
+    tracks = {
+        'irregular sampling': ([(0, 0, 0), (10, 0, 5), (10, 20, 5), (40, 60, 35), (41, 60, 35)], [0.0, 4.0, 5.0, 15.0, 16.5]),
+        'repeated position in the middle': ([(0, 0, 0), (6, 8, 10), (6, 8, 10), (12, 16, -4)], [0.0, 2.0, 7.0, 8.0]),
+        'two fixes': ([(0, 0, 0), (30, 40, 100)], [0.0, 10.0]),
+        'climbing track (3D length differs from 2D length)': ([(0, 0, 0), (3, 4, 12), (6, 8, 0), (9, 12, 40)], [0.0, 1.0, 2.0, 3.0]),
+        'two fixes recorded at the same instant': ([(0, 0, 0), (6, 8, 0), (12, 16, 0), (12, 26, 5), (22, 26, 5)], [0.0, 2.0, 2.0, 6.0, 8.0]),
+    }
+
+    def build(pts, times):
+        return T([O(P(*p_), stamp(tm)) for p_, tm in zip(pts, times)], 'u', 't')
+
+    def lerp(pts, xs, a):
+        """piecewise-linear interpolant of the vertices pts at abscissa a (xs strictly or weakly increasing)"""
+        for i in range(1, len(xs)):
+            if xs[i - 1] < a <= xs[i] or (i == 1 and a == xs[0]):
+                if xs[i] == xs[i - 1]:
+                    continue
+                w = (a - xs[i - 1]) / (xs[i] - xs[i - 1])
+                return tuple(p_ + w * (q_ - p_) for p_, q_ in zip(pts[i - 1], pts[i]))
+        return None
+
+    def near(u, v, tol=1e-6):
+        return u is not None and all(abs(a_ - b_) <= tol * max(1.0, abs(b_)) for a_, b_ in zip(u, v))
+    found = {}
+    n_cases = 0
+
+    def run(label, pts, times, request_desc, make_request, mode, want):
+        """want: list of (position, time) expected"""
+        nonlocal n_cases
+        n_cases += 1
+        t = build(pts, times)
+        case = {'track': label, 'vertices': [list(p_) for p_ in pts], 'times (s)': times, 'request': request_desc, 'mode': 'temporal' if mode == consts['MODE_TEMPORAL'] else 'spatial'}
+        try:
+            t.call('resample', make_request(), consts['ALGO_LINEAR'], mode)
+        except orders.Unsupported as ex:
+            raise shape_error('Track.resample not interpretable: %s' % ex, fr.loc())
+        except (IndexError, KeyError, TypeError, AttributeError, ValueError, ZeroDivisionError, orders.Raised) as ex:
+            found.setdefault((case['mode'], 'fails'), ('resampling does not fail', dict(case, exception='%s: %s' % (type(ex).__name__, str(ex)[:160]))))
+            return
+        got = [(o.position.c, secs(o.timestamp)) for o in t.fields['_Track__POINTS']]
+        names = t.call('getListAnalyticalFeatures')
+        if len(got) != len(want):
+            found.setdefault((case['mode'], 'count'), ('exactly one observation per requested abscissa inside the admitted range' if mode == consts['MODE_TEMPORAL'] else
+                                                       'the first fix followed by one point per multiple of the step that fits the 2D length',
+                                                       dict(case, **{'observations returned': len(got), 'expected': len(want), 'times returned': [round(g_[1], 3) for g_ in got], 'times expected': [round(w_[1], 3) for w_ in want]})))
+            return
+        for k, ((gp, gt), (wp, wt)) in enumerate(zip(got, want)):
+            if not near(gp, wp) or abs(gt - wt) > 0.0015:
+                found.setdefault((case['mode'], 'value'), ('every returned observation is the linear interpolation (x, y, z and time) between the two original fixes that bracket it',
+                                                           dict(case, index=k, returned={'position': list(gp), 'time': round(gt, 4)}, expected={'position': [round(c_, 6) for c_ in wp], 'time': round(wt, 4)})))
+                return
+        if any(got[i][1] > got[i + 1][1] + 1e-9 for i in range(len(got) - 1)):
+            found.setdefault((case['mode'], 'monotone'), ('timestamps of the result never decrease', dict(case, times=[g_[1] for g_ in got])))
+        if names:
+            found.setdefault((case['mode'], 'table'), ('the feature table is reset by resampling', dict(case, **{'features listed': names})))
+    TEMP, SPAT = consts['MODE_TEMPORAL'], consts['MODE_SPATIAL']
+    for label, (pts, times) in tracks.items():
+        dur = times[-1] - times[0]
+        # temporal: numeric steps (dividing the duration, not dividing it, longer than it), lists and a reference track
+        for step in (dur / 4.0, dur / 3.0 + 0.1, dur, dur * 1.5, 1.0):
+            inst = []
+            x = times[0]
+            while x <= times[-1] + 1e-9:
+                inst.append(x)
+                x += step
+            want = [(lerp(pts, times, a), a) for a in inst if times[0] < a <= times[-1] + 1e-9]
+            run(label, pts, times, 'every %.4g s' % step, lambda step=step: step, TEMP, want)
+        class F64(float):
+            """a float subclass (what numpy.float64 is)"""
+        stepf = dur / 4.0
+        inst = [times[0] + k * stepf for k in range(5)]
+        run(label, pts, times, 'every %.4g s, the step given as a numpy.float64-like float subclass' % stepf, lambda stepf=stepf: F64(stepf), TEMP,
+            [(lerp(pts, times, a), a) for a in inst if times[0] < a <= times[-1] + 1e-9])
+        lists = [[times[0] - 5, times[0], times[0] + 0.5, (times[0] + times[-1]) / 2, times[-1], times[-1] + 3],
+                 [t_ for t_ in times], [times[-1]], [times[0] - 2, times[0] - 1], [times[-1] + 1, times[-1] + 2], [times[0] + 0.25]]
+        for inst in lists:
+            want = [(lerp(pts, times, a), a) for a in inst if times[0] < a <= times[-1]]
+            run(label, pts, times, 'list of instants %r' % ([round(a, 3) for a in inst],), lambda inst=inst: [stamp(a) for a in inst], TEMP, want)
+        ref = [times[0] + 0.5 * k for k in range(-1, int(2 * dur) + 3)]
+        want = [(lerp(pts, times, a), a) for a in ref if times[0] < a <= times[-1]]
+        run(label, pts, times, 'reference track sampled every 0.5 s from 0.5 s before to 1 s after', lambda ref=ref: build([(0, 0, 0)] * len(ref), ref), TEMP, want)
+        # spatial: steps on the 2D polyline
+        S = [0.0]
+        for i in range(1, len(pts)):
+            S.append(S[-1] + math.hypot(pts[i][0] - pts[i - 1][0], pts[i][1] - pts[i - 1][1]))
+        full = [tuple(p_) + (tm,) for p_, tm in zip(pts, times)]
+        for ds in (S[-1] / 4.0, S[-1] / 3.0 + 0.01, S[-1] * 0.999, S[-1] * 2, 3.0):
+            nstep = int((S[-1] - S[0]) / ds + 1e-12)
+            want = [(tuple(pts[0]), times[0])]
+            for k in range(1, nstep + 1):
+                v = lerp(full, S, k * ds)
+                if v is None:
+                    want = None
+                    break
+                want.append((v[:3], v[3]))
+            if want is None:
+                continue
+            run(label, pts, times, 'every %.4g m along the 2D polyline (length %.4g)' % (ds, S[-1]), lambda ds=ds: ds, SPAT, want)
+    # a track that carries an 'abs_curv' feature computed for an earlier geometry: the samples follow the CURRENT geometry
+    pts, times = tracks['irregular sampling']
+    S = [0.0]
+    for i in range(1, len(pts)):
+        S.append(S[-1] + math.hypot(pts[i][0] - pts[i - 1][0], pts[i][1] - pts[i - 1][1]))
+    full = [tuple(p_) + (tm,) for p_, tm in zip(pts, times)]
+    ds = S[-1] / 5.0
+
+    def with_stale():
+        t = build(pts, times)
+        t.call('createAnalyticalFeature', 'abs_curv', [0.0, 1.0, 2.0, 3.0, 4.0])
+        return t
+    n_cases += 1
+    t = with_stale()
+    try:
+        t.call('resample', ds, consts['ALGO_LINEAR'], SPAT)
+        got = [(o.position.c, secs(o.timestamp)) for o in t.fields['_Track__POINTS']]
+        want = [(tuple(pts[0]), times[0])] + [(lerp(full, S, k * ds)[:3], lerp(full, S, k * ds)[3]) for k in range(1, int(S[-1] / ds + 1e-12) + 1)]
+        if len(got) != len(want) or any(not near(g_[0], w_[0]) for g_, w_ in zip(got, want)):
+            found.setdefault(('spatial', 'stale'), ('the abscissas are those of the current geometry, whatever features the track carries',
+                                                    {'track': 'irregular sampling, carrying an abs_curv feature [0, 1, 2, 3, 4] left from an earlier geometry', 'step': ds,
+                                                     'positions returned': [list(g_[0]) for g_ in got][:6], 'expected': [[round(c_, 4) for c_ in w_[0]] for w_ in want][:6]}))
+    except orders.Unsupported as ex:
+        raise shape_error('Track.resample not interpretable: %s' % ex, fr.loc())
+    except (IndexError, KeyError, TypeError, AttributeError, ValueError, ZeroDivisionError, orders.Raised) as ex:
+        found.setdefault(('spatial', 'fails'), ('resampling does not fail', {'track': 'irregular sampling with an abs_curv feature', 'exception': '%s: %s' % (type(ex).__name__, str(ex)[:160])}))
+    # number of points instead of a step: the step is derived in the unit of the requested mode
+    for mode, extent in ((TEMP, times[-1] - times[0]), (SPAT, None)):
+        n_cases += 1
+        t = build(pts, times)
+        try:
+            t.call('resample', None, consts['ALGO_LINEAR'], mode, 4)
+            got = [(o.position.c, secs(o.timestamp)) for o in t.fields['_Track__POINTS']]
+        except orders.Unsupported as ex:
+            raise shape_error('Track.resample not interpretable: %s' % ex, fr.loc())
+        except (IndexError, KeyError, TypeError, AttributeError, ValueError, ZeroDivisionError, orders.Raised) as ex:
+            found.setdefault(('temporal' if mode == TEMP else 'spatial', 'fails'), ('resampling does not fail', {'request': 'npts=4', 'exception': '%s: %s' % (type(ex).__name__, str(ex)[:160])}))
+            continue
+        if mode == TEMP:
+            step = (1 + 1e-8) * extent / 4
+            # (whether the 4th sample, which falls on the last instant up to the 1e-8 margin, is produced depends on float rounding of epoch seconds: either is accepted)
+            want = [(lerp(pts, times, min(times[0] + k * step, times[-1])), times[0] + k * step) for k in range(1, 5)]
+            want = want[:len(got)] if len(got) in (3, 4) else want
+            if len(got) != len(want) or any(not near(g_[0], w_[0], 1e-5) or abs(g_[1] - w_[1]) > 0.0015 for g_, w_ in zip(got, want)):
+                found.setdefault(('temporal', 'npts'), ('with a number of points instead of a step, the step is the duration divided by that number - in seconds, in temporal mode',
+                                                        {'request': 'resample(npts=4, mode=temporal)', 'times returned': [round(g_[1], 3) for g_ in got], 'expected': [round(w_[1], 3) for w_ in want]}))
+    for (mode, key), (desc, wit) in sorted(found.items()):
+        ctx.violation('C05.G', fr, '%s resampling: %s' % (mode, desc), wit, node=fr.node, key='%s:%s' % (mode, key))
+    for mode in ('temporal', 'spatial'):
+        if not any(m_ == mode for m_, _ in found):
+            ctx.ok('C05.G', fr, '%s linear resampling agrees with the piecewise-linear interpolant (count, positions, heights, instants, monotone times, table reset)' % mode, node=fr.node)
+    ctx.extra['C05.G cases'] = n_cases
+
+
 RULES = [
-    ('C05.T', rule_T, 'quick'),
-    ('C05.L', rule_L, 'quick'),
-    ('C05.R', rule_R, 'quick'),
-    ('C05.Z', rule_Z, 'quick'),
+    ('C05.G', rule_G, 'quick'),
 ]
-MIN_OBLIGATIONS = 25
+# the statement-level rules (weights identity, bracket scan, request preparation, table reset: rule_W/T/L/R/Z/I) are no longer run:
+# C05.G decides the same clauses on what resample() returns and does not depend on how the loops are written (C05-R5/R6)
+MIN_OBLIGATIONS = 2
